@@ -94,6 +94,8 @@ pub struct BState {
     pub results: Vec<CmdResult>,
     pub custom_handled: u64,
     pub fail_update_memory: bool,
+    /// the device panics when it is handed this event id (a worker thread that dies in the device's code)
+    pub panic_on_event: Option<u16>,
     /// (start, len) of the regions seen from inside the latest `update_memory` callback
     pub regions_at_last_update: Option<Vec<(u64, u64)>>,
     /// guest addresses written from inside `update_memory` (BCfg::touch_in_update)
@@ -258,6 +260,9 @@ impl<V: VringT<Mem> + Send + Sync + 'static> VhostUserBackend for RB<V> {
     fn handle_event(&self, device_event: u16, _evset: EventSet, vrings: &[V], thread_id: usize) -> io::Result<()> {
         let ring_size = vrings.get(device_event as usize).map(|v| v.get_ref().get_queue().size());
         let ev = Ev { seq: stamp(), tid: sys::gettid(), thread_id, device_event, nvrings: vrings.len(), ring_size };
+        if self.st.lock().unwrap().panic_on_event == Some(device_event) {
+            panic!("{}", crate::util::SCRIPTED_DEVICE_PANIC);
+        }
         let (cmds, mem) = {
             let mut g = self.st.lock().unwrap();
             if g.events.len() < 200_000 {
@@ -533,6 +538,7 @@ impl<V: VringT<Mem> + Clone + Send + Sync + 'static> Sess<V> {
             d2.store(true, Ordering::SeqCst);
         });
         let mut stuck_samples = 0;
+        let mut busy_base: Option<(usize, u64)> = None;
         let mut out = Teardown::Timeout;
         let be = self.be.clone();
         sys::wait_until(30_000, || {
@@ -552,6 +558,23 @@ impl<V: VringT<Mem> + Clone + Send + Sync + 'static> Sess<V> {
                 && !live.is_empty()
                 && live.iter().all(|t| sys::parked_in(*t, &[sys::SYS_EPOLL_WAIT, sys::SYS_EPOLL_PWAIT]))
                 && epfds.iter().all(|e| sys::epoll_ready(*e) == 0);
+            // second certificate: the dropper waits (so every exit event has been raised) and a worker keeps
+            // serving other events - thousands of dispatches, each after an epoll_wait that also reported its
+            // exit event - or keeps burning CPU. A worker that honours its exit event leaves within one batch.
+            let exit_raised = epfds.iter().any(|e| sys::epoll_targets(*e).iter().any(|(tfd, _, data)| *data == nq as u64 && sys::eventfd_count(*tfd).is_some_and(|n| n > 0)));
+            if dt > 0 && sys::parked_in(dt, &[sys::SYS_FUTEX]) && !live.is_empty() && exit_raised {
+                let ev_now = be.st.lock().unwrap().events.len();
+                let ticks_now: u64 = live.iter().map(|t| sys::thread_cpu_ticks(*t)).sum();
+                match busy_base {
+                    None => busy_base = Some((ev_now, ticks_now)),
+                    Some((e0, t0)) => {
+                        if ev_now.saturating_sub(e0) >= 5000 || ticks_now.saturating_sub(t0) >= 50 {
+                            out = Teardown::Stuck(format!("dropper tid {dt} parked in futex (exit events raised); workers {live:?} went on serving: {} further dispatches, {} CPU ticks", ev_now - e0, ticks_now.saturating_sub(t0)));
+                            return true;
+                        }
+                    }
+                }
+            }
             if all_parked {
                 stuck_samples += 1;
                 if stuck_samples >= 5 {
